@@ -142,6 +142,15 @@ Definition dyad_of (id : list Z) : option (val -> val -> res val) :=
   if is "," || is "L," then Some join else
   if is "Lnc" || is "named" then Some (fun x y => bindr (arith n_mul (VInt 2) y) (fun t => arith n_sub x t)) else
   if is "Ldec" then Some (fun x y => bindr (arith n_mul x (VInt 10)) (fun t => arith n_add t y)) else
+  if is "Ssub" then Some (fun x y => arith n_sub y x) else
+  if is "Sdiv" then Some (fun x y => if numeric x && numeric y
+                                      then match klong_div y x with Err _ => Err E_UNMODELLED | r => r end
+                                      else Err E_UNMODELLED) else
+  if is "Sjoin" then Some (fun x y => join y x) else
+  if is "Slt" then Some (fun x y => arith n_lt y x) else
+  if is "Lxx" then Some (fun x _ => arith n_sub x x) else
+  if is "Lyy" then Some (fun _ y => arith n_sub y y) else
+  if is "Srem" || is "Spow" || is "Sidiv" then Some (fun _ _ => Err E_UNMODELLED) else
   if is "Lsnd" then Some (fun _ y => Ok y) else
   if is "Lfst" then Some (fun x _ => Ok x) else
   if is "Lnest" then Some (fun x y => match x with
